@@ -20,11 +20,11 @@ CLASSES = [
     "comment-header", "comment-between-blocks", "comment-after-expressions-header", "comment-between-assignments",
     "trailing-words", "trailing-unit", "trailing-arithmetic-like", "trailing-hash-only", "trailing-power-tower",
     "blank-lines", "whitespace-only-lines", "indentation", "crlf", "no-final-newline", "break-after-operator", "break-after-operand-in-parens",
-    "unit-annotation", "description-annotation", "trailing-unit-change", "comment-unicode-line-separators",
+    "unit-annotation", "description-annotation", "trailing-unit-change", "comment-unicode-line-separators", "crlf-with-blank-lines",
 ]
 RULE = (
     "model text M (vlib.modelgen, named and default components, units / descriptions) and M' = M + drawn inert "
-    "edits of one class out of 20: comment lines (header, between blocks, directly after an expressions(...) "
+    "edits of one class out of 21: comment lines (header, between blocks, directly after an expressions(...) "
     "header, between assignments), trailing comments whose text is words / a unit / arithmetic-like (1/0, 2**, "
     "unbalanced brackets, numbers) / a bare '#' / a power tower (9**9**9, run in a killable subprocess with a "
     "20 s guard), blank lines, indentation with spaces and tabs, CRLF, missing final newline, line breaks after "
@@ -111,6 +111,10 @@ def edit_text(draw, model, klass):
                 lines[i] = draw(st.sampled_from(["  ", "\t", "    ", " \t "])) + lines[i].lstrip()
     elif klass == "crlf":
         nl = "\r\n"
+    elif klass == "crlf-with-blank-lines":
+        nl = "\r\n"
+        for _ in range(draw(st.integers(1, 4))):
+            lines.insert(draw(st.integers(0, len(lines))), "")
     elif klass == "no-final-newline":
         while lines and lines[-1] == "":
             lines.pop()
@@ -244,7 +248,7 @@ def check_case(case):
         raise Violation(f"C17:{klass}:python-output-changed", dict(ctx, diff=_first_diff(py0, py1)))
     if c0 != c1:
         raise Violation(f"C17:{klass}:c-output-changed", dict(ctx, diff=_first_diff(c0, c1)))
-    return {"nontrivial": t0.split() != t1.split() or klass in ("crlf", "indentation", "blank-lines", "whitespace-only-lines", "no-final-newline"), "labels": [f"class:{klass}"]}
+    return {"nontrivial": t0.split() != t1.split() or klass in ("crlf", "crlf-with-blank-lines", "indentation", "blank-lines", "whitespace-only-lines", "no-final-newline"), "labels": [f"class:{klass}"]}
 
 
 def _first_diff(a, b):
@@ -256,7 +260,7 @@ def _first_diff(a, b):
 
 
 CLAIM = {
-    "text": "Bounded random exploration: each generated model is edited by one class of 'inert' changes (20 classes covering comments in every placement, comment text including arithmetic-like strings and power towers, blank lines, indentation, line endings, continuation, unit / description annotations) and must load, keep every definition's component and produce byte-identical Python and C code; hanging loads are detected in a killable subprocess. No absence claim.",
+    "text": "Bounded random exploration: each generated model is edited by one class of 'inert' changes (21 classes covering comments in every placement, comment text including arithmetic-like strings and power towers, blank lines, indentation, line endings, continuation, unit / description annotations) and must load, keep every definition's component and produce byte-identical Python and C code; hanging loads are detected in a killable subprocess. No absence claim.",
     "note": "Trusted: the edit generator only produces changes the statement calls inert. Several classes are open known findings (known_findings.json); they stay in the search and are counted as excluded.",
     "technique": "property-based testing (Hypothesis): metamorphic relation (inert text edit => identical model and output), subprocess guard for hangs",
 }
